@@ -388,6 +388,7 @@ type rig struct {
 	v       *quickfix.VerifSession
 	base    quickfix.MessageStore // the store below the logging wrapper (survives a restart)
 	lastOut [][]byte              // raw messages written in the last event
+	own     *quickfix.Message     // the application's message object, reused for every send
 }
 
 func newRig(c cfgT) *rig { return newRigOn(c, nil) }
@@ -542,7 +543,14 @@ func (r *rig) apply(ev Sx) Sx {
 	case "timeout":
 		r.v.Timeout(AtomInt(l[1]))
 	case "send":
-		msg := quickfix.NewMessage()
+		// the application keeps one Message object and re-fills it for every send
+		if r.own == nil {
+			r.own = quickfix.NewMessage()
+		}
+		msg := r.own
+		msg.Header.Clear()
+		msg.Body.Clear()
+		msg.Trailer.Clear()
 		msg.Header.SetString(35, string(AtomBytes(l[1])))
 		for _, kv := range sxPairs(l[2]) {
 			t, _ := strconv.Atoi(kv[0])
